@@ -16,6 +16,8 @@ RULE = ('cases = x.round(eps, rmax) for TT tensors and TT matrices of order 1..7
         'new object, operand bit-identical afterwards, same shape, R_y<=R_x, R_y<=rmax, R_y<=exact unfolding ranks (when roundoff noise is well below the threshold), '
         '||D(y)-D(x)|| <= eps||D(x)|| + 1e3 u S_rep when no rank hits rmax. distinct = (generator, structure, dtype, rmax form, result ranks); '
         'non-trivial = some rank strictly decreased.')
+from ..hist import RULE_SUFFIX as _RS
+RULE = RULE + _RS
 ASSUMPTIONS = ['exact unfolding ranks of D(x) are measured by the harness (singular values above 1e-10 / 1e-5 relative); the clause is applied only when '
                '1e3*u*S_rep < 0.1*eps*||D(x)|| so representation roundoff cannot legitimately hold a rank up',
                '"rmax binding" decided conservatively: error clause skipped whenever a returned rank equals its cap']
